@@ -93,9 +93,41 @@ T = [
 ("R4-C30",3,"compile","TestDemoR4C30_3$","a constant false/true in the middle of an and/or list followed by a constant operation that throws","missed","C30.10 (added): the short-circuit flag is updated from the operand before the current one"),
 ("R4-C18",1,"db19/stor","TestDemoR4C18_1$","two allocators at a chunk transition (race; several hundred rounds)","caught","C18.2 allocChunk.Load before size.Add"),
 ("R4-C18",2,"db19/stor","TestDemoR4C18_2$","two allocators at a chunk transition (race); only silent overlaps","missed","C18.2 (strengthened): allocChunk is never loaded after size.Add within one attempt"),
+# fifth and sixth round
+("R5-C06",1,"db19","TestDemoR5C06_1$","alter create adding a column and an index on a populated table","missed","out of reach: argument order of a set union (value-level)"),
+("R5-C06",2,"db19","TestDemoR5C06_2$","alter drop of an index that is not the last","missed","C06.9 (new): dropIndexes filters schema and overlays in lockstep"),
+("R5-C07",1,"dbms/query","TestDemoR5C07_1","composite unique index, partly empty value","missed","C07.8 (new): uniqueIndexEmpty folded over a two-field index (range loop unrolled over a model list)"),
+("R5-C07",2,"db19","TestDemoR5C07_2","update to a key another transaction has just checked","missed","C07.7 / C01.6b (extended): every keys parameter of Check.Update is tested against the reads"),
+("R5-C08",1,"dbms/query","TestDemoR5C08_1","recursive cascade key","missed","C08.7 (new): a back link is skipped only because of its mode"),
+("R5-C08",2,"dbms/query","TestDemoR5C08_2","two referencing indexes, encoded before un-encoded, zero byte in the value","missed","C08.8 (new): the key used for a back link is assigned on every path of that iteration"),
+("R5-C08",3,"dbms/query","TestDemoR5C08_3","concurrent delete of the target row","caught","C08.5 / C01.2 / C01.4 (override removed)"),
+("R5-C09",1,"db19/index","TestDemoR5C09_1$","one OverIter used for skip-scan, then range, then an index change","missed","C09.4 (new): the mode an OverIter remembers equals the mode of its sources"),
+("R5-C09",2,"db19/index","TestDemoR5C09_2$","backward iteration, index change, btree without key in [cur, End)","missed","out of reach: eof sentinel convention between Rewind and modPrev"),
+("R5-C09",3,"db19/index","TestDemoR5C09_3$","skip-scan, buffer modified, all buffer keys below the current key","missed","out of reach: search postcondition of skipSeek"),
+("R5-C16",1,"db19","TestDemoR5C16_1$","delete-only commits before shutdown","missed by C16 (C04.2 caught it)","C04.2"),
+("R5-C16",2,"db19","TestDemoR5C16_2$","length-changing update as first write","missed by C16 (C03.5, C02.2 caught it)","C03.5 / C02.2"),
+("R5-C21",1,"dbms/query","TestDemoR5C21_1","two foreign keys into one target key, rename of a column of one","missed","C21.8 (new): a store into an existing back link is guarded by its table and its own position/columns"),
+("R5-C21",2,"dbms/query","TestDemoR5C21_2","cascade key, close and re-open","missed","C21.7 (new): every back link literal sets table, columns, position and mode"),
+("R5-C21",3,"dbms/query","TestDemoR5C21_3","ensure repeating an existing foreign-key index plus something new","missed","C21.9 (new): Ensure hands createFkeys a list appended to only where FindIndex(…) == nil"),
+("R6-C34",1,"core","TestDemoR6C34_1$","> 255 timestamps within a second in the second half of a second","caught","C34.5"),
+("R6-C34",2,"core","TestDemoR6C34_2$","two client threads fetching a batch at once","missed","C34.6 (new): the server request is made while tsLock is held"),
+("R6-C35",1,"core","TestDemoR6C35_1","rule that throws once","missed","C35.6 (new): the active-rule entry is popped by a deferred call"),
+("R6-C35",2,"core","TestDemoR6C35_2","record with _deps, first operation is Delete/Erase","missed","C35.7 (new): ensureDeps() before r.row = nil"),
+("R6-C35",3,"core","TestDemoR6C35_3","nested rules on two records with the same field name","missed","C35.8 (new): activeRules.has compares record and field"),
+("R6-C40",1,"dbms/mux","TestDemoR6C40_1$","two client connections sharing the worker pool","missed","C40.6 (new): the worker binds its write buffer to the task's connection and session in every iteration"),
+("R6-C40",2,"dbms","TestDemoR6C40_2$","table with a dropped column read through Query/Cursor + Get","missed","out of reach: which header form is sent is value-level"),
+("R6-C40",3,"dbms","TestDemoR6C40_3$","same record updated twice using the returned offset","missed","C40.7 (new): handlers do not discard what the database operation returned"),
+("R6-C41",1,"dbms","TestDemoR6C41_1$","Log request on an unauthenticated connection","caught","C41.1"),
+("R6-C41",2,"dbms","TestDemoR6C41_2$","Exec/Run through the thread's dbms in a server process","caught","C41.2"),
+("R6-C41",3,"dbms","TestDemoR6C41_3$","token used after one sweep","caught","C41.4"),
+("R6-C43",1,"core","TestDemoR6C43_1","two simultaneous first copies of a shared object","caught","C43.3"),
+("R6-C43",2,"core","TestDemoR6C43_2","Member? on a shared, lazily unpacked record from two threads","missed","C43.5 (new): a method holding only the read lock does not reach a writer of Header.cache"),
+("R6-C43",3,"core","TestDemoR6C43_3","this-only block passed to Thread()","missed","C43.6 (new): SuClosure.SetConcurrent propagates to this before every exit"),
+("R6-C44",1,"dbms/query","TestDemoR6C44_1","trigger defined after the table's first change, single-name Unload","missed","C44.5 (new): unload deletes the cached \"not defined\" on every path"),
+("R6-C44",2,"dbms/query","TestDemoR6C44_2","child trigger throws during a cascade, caller catches and completes","missed","C44.4 (new): cascades run under recover→Abort→re-panic"),
 ]
 conf = {}
-for log in ("/tmp/seed/confirm.log", "/tmp/seed/confirm2.log", "/tmp/seed/confirm3.log", "/tmp/seed/confirm4.log", "/tmp/seed/confirm4a.log", "/tmp/seed/confirm4b.log", "/tmp/seed/confirm5.log", "/tmp/seed/confirm6.log"):
+for log in ("/tmp/seed/confirm.log", "/tmp/seed/confirm2.log", "/tmp/seed/confirm3.log", "/tmp/seed/confirm4.log", "/tmp/seed/confirm4a.log", "/tmp/seed/confirm4b.log", "/tmp/seed/confirm5.log", "/tmp/seed/confirm6.log", "/tmp/seed/confirm7a.log", "/tmp/seed/confirm7b.log", "/tmp/seed/confirm7c.log"):
     if not os.path.exists(log): continue
     cur = None
     for l in open(log):
